@@ -51,6 +51,10 @@ def programs(tier):
         seqs = seqs1 + seqs2
         if tier == "thorough":
             seqs = seqs + [(a, b, c) for a in A for b in A for c in A if c[0] != "join" or b[0] != "join"]
+        if tier != "thorough":
+            S3 = [(("stop",), S("h1", "w1"), ("start",)), (("start",), ("stop",), ("start",)),
+                  (("stop",), ("start",), S("h1", "w1")), (("start",), ("stop",), S("h1", "w1"))]
+            seqs = seqs + [sq3 for sq3 in S3 if not started or sq3[0][0] != "start"]
         for sq in seqs:
             P.append((f"1t-{'run' if started else 'new'}-" + "+".join(o[0] for o in sq) + f"#{n}", dict(base, threads=[list(sq)])))
             n += 1
